@@ -131,10 +131,14 @@ def token(draw, bds, max_atoms=6, chem="any", avoid=frozenset(), allow_lead=True
                     b = draw(st.sampled_from(others))
                     rn = ring_no[0] + 1 if ring_no[0] < 99 else 1
                     first, second = (a, b) if nodes.index(a) < nodes.index(b) else (b, a)
-                    first.rings.append((rn, 1))
-                    second.rings.append((rn, 1))
-                    a.free -= 1
-                    b.free -= 1
+                    ro = 1
+                    if (a.label == "C" and b.label == "C" and a.free >= 2 and b.free >= 2 and total_free() - 4 >= need
+                            and "ring_bond_symbol" not in avoid and draw(st.integers(0, 2)) == 0):
+                        ro = 2  # double ring-closure bond: its symbol is written next to the ring digit
+                    first.rings.append((rn, ro))
+                    second.rings.append((rn, ro))
+                    a.free -= ro
+                    b.free -= ro
         # make sure the descriptors fit
         while True:
             free_now = sorted((x.free for x in nodes), reverse=True)
@@ -738,7 +742,7 @@ def systems(draw, avoid=frozenset(), chem="any", max_mols=3, **kw):
     n = draw(st.integers(1, max_mols))
     mols = [draw(molecules(avoid=avoid, chem=chem, **kw)) for _ in range(n)]
     # mixture specification: consistent by construction
-    S = float(draw(st.sampled_from([1000, 5000, 20000, 1e5])))
+    S = float(draw(st.sampled_from([1000, 5000, 20000, 1e5, 2.5])))
     fr = [draw(st.integers(1, 10)) for _ in range(n)]
     tot = sum(fr)
     pct = [100.0 * f / tot for f in fr]
@@ -747,5 +751,5 @@ def systems(draw, avoid=frozenset(), chem="any", max_mols=3, **kw):
         kinds[draw(st.integers(0, n - 1))] = "abs"
     for m, k, p in zip(mols, kinds, pct):
         m.mix = (k, round(p, 6)) if k == "pct" else ("abs", round(p / 100.0 * S, 6))
-        m.mix_style = draw(st.sampled_from(["plain", "float"]))
+        m.mix_style = draw(st.sampled_from(["plain", "float", "nolead"]))
     return Sys(mols)
